@@ -189,6 +189,82 @@ func c08Classdef(r *run.Run) {
 		})
 }
 
+// coverage and class-definition tables that span the whole glyph range: counts of 65535 / 65536
+// entries or ranges sit at the limit of the 16-bit count fields
+func c08RangeLimits(r *run.Run) {
+	spans := [][2]int{{0, 0xFFFF}, {0, 0xFFFE}, {1, 0xFFFF}, {0, 0x7FFF}, {0x8000, 0xFFFF}, {0, 0xFFFD}}
+	r.Explore(explore.Config{Name: "C08.range-limits"},
+		"coverage tables and class definitions over the glyph spans [0,0xFFFF] [0,0xFFFE] [1,0xFFFF] [0,0x7FFF] [0x8000,0xFFFF] [0,0xFFFD] x {every glyph, every second glyph, alternating classes 1/2, one class}: the encoder either refuses loudly (panic) or the bytes have the declared length and decode to the same table",
+		func(c *explore.Ctx) {
+			sp := spans[c.Choose(len(spans), "span")]
+			pattern := c.Choose(4, "pattern")
+			kind := c.Choose(2, "table kind")
+			desc := fmt.Sprintf("%s over [%#x,%#x], pattern %s", []string{"coverage", "classdef"}[kind], sp[0], sp[1], []string{"every glyph", "every second glyph", "alternating classes", "every third glyph missing"}[pattern])
+			c.Sample(func() any { return desc })
+			c.Nontrivial()
+			in := func(g int) bool {
+				switch pattern {
+				case 1:
+					return (g-sp[0])%2 == 0
+				case 3:
+					return (g-sp[0])%3 != 2
+				}
+				return true
+			}
+			if kind == 0 {
+				tab := coverage.Table{}
+				for g := sp[0]; g <= sp[1]; g++ {
+					if in(g) {
+						tab[glyph.ID(g)] = len(tab)
+					}
+				}
+				var enc []byte
+				if p := guard(func() { enc = tab.Encode() }); p != "" {
+					c.Tag("refused loudly: " + p)
+					c.Outcome("refused", desc)
+					return
+				}
+				c.Outcome(len(enc), desc)
+				if tab.EncodeLen() != len(enc) {
+					c.Fail("C08.sizes", "coverage.Table range limits", "EncodeLen()=%d but Encode() emits %d bytes; %s", tab.EncodeLen(), len(enc), desc)
+				}
+				back, err := coverage.Read(parser.New(bytes.NewReader(enc)), 0)
+				if err != nil {
+					c.Fail("C08.roundtrip", "coverage.Table range limits", "Read(Encode(x)) fails: %v; %s (%d entries, %d bytes, format %d, count field %d)", err, desc, len(tab), len(enc), enc[1], binary.BigEndian.Uint16(enc[2:]))
+				} else if len(back) != len(tab) || !reflect.DeepEqual(tab, back) {
+					c.Fail("C08.roundtrip", "coverage.Table range limits", "Read(Encode(x)) has %d entries, x has %d (or indices differ); %s (%d bytes, format %d, count field %d)", len(back), len(tab), desc, len(enc), enc[1], binary.BigEndian.Uint16(enc[2:]))
+				}
+				return
+			}
+			tab := classdef.Table{}
+			for g := sp[0]; g <= sp[1]; g++ {
+				if in(g) {
+					cls := uint16(1)
+					if pattern == 2 {
+						cls = uint16(1 + (g-sp[0])%2)
+					}
+					tab[glyph.ID(g)] = cls
+				}
+			}
+			var enc []byte
+			if p := guard(func() { enc = tab.Append(nil) }); p != "" {
+				c.Tag("refused loudly: " + p)
+				c.Outcome("refused", desc)
+				return
+			}
+			c.Outcome(len(enc), desc)
+			if tab.AppendLen() != len(enc) {
+				c.Fail("C08.sizes", "classdef.Table range limits", "AppendLen()=%d but Append emits %d bytes; %s", tab.AppendLen(), len(enc), desc)
+			}
+			back, err := classdef.Read(parser.New(bytes.NewReader(enc)), 0)
+			if err != nil {
+				c.Fail("C08.roundtrip", "classdef.Table range limits", "Read(Append(x)) fails: %v; %s (%d entries, %d bytes, format %d)", err, desc, len(tab), len(enc), enc[1])
+			} else if !reflect.DeepEqual(tab, back) {
+				c.Fail("C08.roundtrip", "classdef.Table range limits", "Read(Append(x)) has %d entries, x has %d (or classes differ); %s (%d bytes, format %d, count field %d)", len(back), len(tab), desc, len(enc), enc[1], binary.BigEndian.Uint16(enc[2:]))
+			}
+		})
+}
+
 func c08Gdef(r *run.Run) {
 	classes := []classdef.Table{nil, {1: 1, 2: 3}, {0: 2, 0xFFFF: 4, 7: 1}, {1: 1, 2: 1, 3: 1, 4: 1, 5: 1, 6: 3}}
 	attach := []classdef.Table{nil, {2: 1}, {2: 1, 6: 2, 0xFFFE: 255}}
@@ -543,6 +619,7 @@ func init() {
 		r.Assume = []string{"normal form: nil == empty; class 0 entries are not stored; encoder panics count as 'refused loudly'", "device/variation offsets and GPOS 3/5 are not generated"}
 		c08Coverage(r)
 		c08Classdef(r)
+		c08RangeLimits(r)
 		c08Gdef(r)
 		c08Lookups(r)
 		c08Sizes(r)
